@@ -397,6 +397,7 @@ func (t *ftx) Rollback() error { return t.end("rollback", errRollback) }
 
 type acceptor struct {
 	tids []int // thread running when the function was consulted
+	pos  []int // length of the driver log at that moment
 	args []error
 }
 
@@ -449,6 +450,7 @@ func (r *runner) setup() {
 			as = append(as, a)
 			opts = append(opts, sqlx.WithAcceptable(func(err error) bool {
 				a.tids = append(a.tids, curPlan.Load().cur)
+				a.pos = append(a.pos, len(curPlan.Load().log))
 				a.args = append(a.args, err)
 				return false
 			}))
@@ -566,12 +568,13 @@ func (r *runner) runInline(j int, bodyCtx context.Context, mode string) {
 	r.p.cur = prev
 }
 
-func (r *runner) accCalls(conn, t int) (n int, args []error) {
+func (r *runner) accCalls(conn, t int) (n int, args []error, pos []int) {
 	for _, a := range r.accs[conn] {
 		for i, tid := range a.tids {
 			if tid == t {
 				n++
 				args = append(args, a.args[i])
+				pos = append(pos, a.pos[i])
 			}
 		}
 	}
@@ -644,12 +647,21 @@ func (r *runner) finish(t int) {
 	th := r.threads[t]
 	out := &th.out
 	out.InUse = r.inUse()
-	n, args := r.accCalls(th.spec.Conn, t)
+	// the breaker's verdict on the call is asked for (a) with the very error that is returned and
+	// (b) once the transaction is over: after the last driver call made on its behalf
+	n, args, pos := r.accCalls(th.spec.Conn, t)
 	out.Acc = n
 	out.AccSame = true
 	for _, a := range args {
 		if a != th.retErr {
 			out.AccSame = false
+		}
+	}
+	for _, at := range pos {
+		for i := at; i < len(r.p.log); i++ {
+			if r.p.log[i][0].(int) == t {
+				out.AccSame = false
+			}
 		}
 	}
 	for _, e := range r.p.log {
@@ -922,7 +934,7 @@ func runCase(c Case) (out Out) {
 		out.Tripped = tripped
 		for _, as := range r.accs {
 			for _, a := range as {
-				a.tids, a.args = nil, nil
+				a.tids, a.args, a.pos = nil, nil, nil
 			}
 		}
 	}
